@@ -203,6 +203,120 @@ def helper_permutations(chk: Check) -> None:
         ob.status, ob.detail = UNDECIDED, f"{type(e).__name__}: {e}"
 
 
+# ----------------------------------------------------------------------------------------------------------------
+# 7. the one positional hand-over of the CSV path: read_csv(header=true, columns={…}) names the file's columns BY POSITION
+# ----------------------------------------------------------------------------------------------------------------
+def csv_columns_map_contract(chk: Check) -> None:
+    """Postcondition of load_datapoints_duckdb (CSV branch), checked on the statement the REAL function emits to a recording
+    connection: the keys of the `columns={…}` map are exactly the file's header, in the header's order; and the same header in
+    every order, loaded by the real function into a real DuckDB table, gives the same set of datapoints."""
+    f = f"src/vtlengine/{IO}:load_datapoints_duckdb"
+    ob = chk.ob(f"{f}::read_csv-columns-map-is-the-header", f,
+                "for every header made of <= 5 distinct names of the pool {identifier, measure, attribute, DATAFLOW, STRUCTURE, "
+                "STRUCTURE_ID, ACTION, unknown} in every order: the statement the real loader emits reads the file with "
+                "read_csv(header=true, columns={…}) whose keys are the header's names in the header's order (DuckDB binds these "
+                "names to the file's columns by position)", bounded=True)
+    ob.backend = "real-function-recording-connection"
+    ob2 = chk.ob(f"{f}::csv-column-order-native", f,
+                 "a CSV file with an SDMX special column (ACTION with a deleted row, STRUCTURE, STRUCTURE_ID) in every position "
+                 "among the structure's columns, in every column order, loads the same set of datapoints (real loader, real DuckDB)",
+                 bounded=True)
+    ob2.backend = "real-function-real-duckdb"
+    try:
+        core.boot(full=True)
+        import importlib
+        from vc import loadvc
+        model = importlib.import_module("vtlengine.Model")
+        dts = importlib.import_module("vtlengine.DataTypes")
+        io = importlib.import_module("vtlengine.duckdb_transpiler.io._io")
+        R = model.Role
+        comps = {"Id_1": model.Component("Id_1", dts.Integer, R.IDENTIFIER, False),
+                 "Me_1": model.Component("Me_1", dts.String, R.MEASURE, True),
+                 "At_1": model.Component("At_1", dts.String, R.ATTRIBUTE, True)}
+        pool = ["Id_1", "Me_1", "At_1", "DATAFLOW", "STRUCTURE", "STRUCTURE_ID", "ACTION", "Zz_9"]
+        n = 0
+        for k in range(1, 6):
+            for subset in itertools.combinations(pool, k):
+                if "Id_1" not in subset:
+                    continue
+                for perm in itertools.permutations(subset):
+                    header = list(perm)
+                    prog = loadvc.extract_program("csv", comps, {c: "VARCHAR" for c in header})
+                    if prog.error is not None:
+                        continue                    # the loader's own verdict on this header (nothing is read)
+                    reads = [s for s in prog.statements if "read_csv" in s and "INSERT" in s.upper()]
+                    if not reads:
+                        continue
+                    n += 1
+                    m = re.search(r"columns\s*=\s*\{(.*?)\}", reads[0], re.S)
+                    keys = re.findall(r"'((?:[^']|'')*)'\s*:", m.group(1)) if m else None
+                    hdr = bool(re.search(r"header\s*=\s*true", reads[0]))
+                    if keys != header or not hdr:
+                        ob.status = REFUTED
+                        ob.detail = f"header {header}: the emitted read_csv names the columns {keys} (header=true: {hdr})"
+                        ob.witness = {"header": header, "columns_map_keys": keys, "statement": " ".join(reads[0].split())[:400]}
+                        ob.finding_key = "column-order::read_csv-columns-map"
+                        break
+                if ob.status == REFUTED:
+                    break
+            if ob.status == REFUTED:
+                break
+        if ob.status != REFUTED:
+            if n == 0:
+                ob.status, ob.detail = UNDECIDED, "no header reached the read_csv statement (loader changed shape?)"
+            else:
+                ob.status, ob.detail = BOUNDED_OK, f"{n} headers"
+        # native: same content, every column order
+        import tempfile
+        import duckdb
+        rows = {"Id_1": ["1", "2", "3"], "Me_1": ["D", "y", "c"], "At_1": ["x", "R", "D"]}
+        cases = [("ACTION", ["I", "D", "R"]), ("STRUCTURE", ["dataflow", "dataflow", "dataflow"]),
+                 ("STRUCTURE_ID", ["A:B(1.0)", "A:B(1.0)", "A:B(1.0)"])]
+        m2 = 0
+        with tempfile.TemporaryDirectory(prefix="verif_c33_csv_") as d:
+            for special, vals in cases:
+                table = dict(rows)
+                table[special] = vals
+                outs: Dict[Any, Any] = {}
+                for order in itertools.permutations(list(table)):
+                    p = Path(d) / "DS_1.csv"
+                    with open(p, "w", newline="") as fh:
+                        import csv as _csv
+                        w = _csv.writer(fh)
+                        w.writerow(order)
+                        for i in range(3):
+                            w.writerow([table[c][i] for c in order])
+                    conn = duckdb.connect()
+                    try:
+                        io.load_datapoints_duckdb(conn, comps, "DS_1", p)
+                        got: Any = frozenset(conn.execute('SELECT "Id_1", "Me_1", "At_1" FROM "DS_1"').fetchall())
+                    except Exception as e:  # noqa: BLE001
+                        got = ("error", type(e).__name__, str(e)[:100])
+                    finally:
+                        conn.close()
+                    m2 += 1
+                    outs.setdefault(got, list(order))
+                if len(outs) > 1:
+                    (r1, c1), (r2, c2) = list(outs.items())[:2]
+                    show = lambda r: sorted(r) if isinstance(r, frozenset) else r  # noqa: E731
+                    ob2.status = REFUTED
+                    ob2.detail = f"columns {c1} -> {show(r1)}  BUT  columns {c2} -> {show(r2)}"
+                    ob2.witness = {"columns_1": c1, "columns_2": c2, "rows": table, "result_1": str(show(r1)), "result_2": str(show(r2))}
+                    ob2.replayed, ob2.replay_detail = True, "real load_datapoints_duckdb on a real DuckDB connection: " + ob2.detail[:300]
+                    ob2.finding_key = "column-order::csv-special-column-position"
+                    if ob.status == REFUTED:
+                        ob.replayed, ob.replay_detail = True, ob2.replay_detail
+                    break
+        if ob2.status != REFUTED:
+            ob2.status, ob2.detail = BOUNDED_OK, f"{m2} files"
+        if ob.status == REFUTED and ob.replayed is None and ob2.status == BOUNDED_OK:
+            ob.replay_detail = "the emitted statement is order-dependent but no loaded table differed on the native files tried"
+    except Exception as e:  # noqa: BLE001
+        for o in (ob, ob2):
+            if o.status not in (REFUTED, BOUNDED_OK):
+                o.status, o.detail = UNDECIDED, f"{type(e).__name__}: {e}"
+
+
 def main() -> None:
     chk = Check("C33", "proof", "order-insensitivity contract on every SQL template extracted from the real source on each run "
                 "(window / aggregate / fold / LIMIT constructs; key-list dataflow, fold lambdas to z3 via vc.sqlvc, native replay "
@@ -219,6 +333,7 @@ def main() -> None:
     else:
         collect_bounded = OC.run_bounded(chk, "C33", list(known))       # worker processes; the P tier is decided meanwhile
     helper_permutations(chk)
+    csv_columns_map_contract(chk)
     tpl = OC.Templates()
     if tpl.gen_problems:
         chk.notes.append("generator calls that failed: " + "; ".join(tpl.gen_problems[:5]))
